@@ -508,14 +508,19 @@ def value_signature(rule: str, description: str, detail: Any, desc: dict) -> str
     return "C03:value:%s:%s%s" % (rule, claim + ":" if claim else "", primary(feats))
 
 
-def case_signature(rule: str, description: str, detail: Any, desc: dict) -> str:
+def case_signature(rule: str, description: str, detail: Any, desc: dict, where: Any = None) -> str:
     case_label = next((t[2] for t in _detail_set(detail) if isinstance(t, list) and len(t) == 3 and t[0] == "case"), "?")
     parts = [t for t in _detail_set(detail) if isinstance(t, list) and len(t) == 3 and t[0] != "case"]
     cls = lambda names: "+".join(sorted({"body" if n == "body" else "param" for n in names})) or "-"  # noqa: E731
     kind = "method" if description.startswith("Unspecified HTTP method") else "missing" if description.startswith("Missing `") else \
         "duplicate" if description.startswith("Duplicate `") else "value"
     if rule == "case-positive-something-invalid" and any(t[1] == "F" and t[2] == "negative" for t in parts):
-        return "C03:case:case-label-lags-part-label:" + cls(t[0] for t in parts if t[1] == "F" and t[2] == "negative")
+        bad = {t[0] for t in parts if t[1] == "F" and t[2] == "negative"}
+        varied = (where or [None])[0]
+        if varied is not None and varied not in bad:
+            # the case varies another part; the invalid, negative-labelled part is the operation's TEMPLATE value
+            return "C03:case:negative-template-part-in-positive-case:" + cls(bad)
+        return "C03:case:case-label-lags-part-label:" + cls(bad)
     if any(t[1] == "F" and t[2] == "none" for t in parts) and rule in ("case-positive-something-invalid", "part-positive-invalid"):
         return "C03:case:required-part-absent:" + cls(t[0] for t in parts if t[1] == "F" and t[2] == "none")
     if (desc.get("spell") or {}).get("schemaIn") == "content" and rule in ("case-positive-something-invalid", "part-positive-invalid") and \
@@ -612,7 +617,7 @@ def run(ctx: Ctx) -> Outcome:
             sig = value_signature(rule, rec["description"], detail, descs[di])
             summary = "%s: value %r labelled %s (%s) for %s" % (rule, _decode(o["value"]), o["mode"], rec["description"], _short(descs[di]))
         else:
-            sig = case_signature(rule, rec["description"], detail, descs[di])
+            sig = case_signature(rule, rec["description"], detail, descs[di], rec.get("where"))
             c = o["c"]
             summary = "%s: case labelled %s, parts %s, verdicts %s (%s; modes %s) for %s" % (
                 rule, c["labels"]["case"], {k: v for k, v in c["labels"].items() if k != "case" and v != "none"},
@@ -683,7 +688,7 @@ def replay(ctx: Ctx, data: dict) -> Outcome:
     for i, rule in [(i, r) for i in sorted(dis) for r in dis[i][0]]:
         detail = dis[i][1]
         di, rec = back[i - 1]
-        sig = value_signature(rule, rec["description"], detail, ds[di]) if obs[i - 1]["kind"] == "value" else case_signature(rule, rec["description"], detail, ds[di])
+        sig = value_signature(rule, rec["description"], detail, ds[di]) if obs[i - 1]["kind"] == "value" else case_signature(rule, rec["description"], detail, ds[di], rec.get("where"))
         if rule == data["rule"] and rec["description"] == data["description"]:
             out.violations.append(Violation(sig, "%s (%s)" % (rule, rec["description"]), data))
     return out
